@@ -192,14 +192,28 @@ def run_sweep(T, tier, seed, optsets, name='core'):
             sh['rewritten'] += 1 if h.get('rewritten') else 0
             sh['swOK'] += 1 if h.get('swOK') else 0
             sh['rewritten_and_swOK'] += 1 if h.get('swOK') and h.get('rewritten') else 0
-            # the end-to-end theorem C02_switch_same_as_default is about `-switch` alone (AST, no -inline)
-            safe = bool(h.get('switchSafe')) if r['opts'] == 's' else None
+            # the end-to-end theorem of THIS option set: C02_switch_same_as_default (s), C02_inline_switch_same_as_default (is),
+            # C07_switch_generated_parser (sn); for isn only the Eval-level swOK
+            key = {'s': 'switchSafe', 'is': 'inlineSwitchSafe', 'sn': 'noastSwitchSafe'}.get(r['opts'])
+            safe = bool(h.get(key)) if (key and key in h) else None
+            if key and key in h:
+                sh.setdefault('by_opts', {}).setdefault(r['opts'], {'programs': 0, 'rewritten': 0, 'safe': 0, 'rewritten_and_safe': 0})
+                b = sh['by_opts'][r['opts']]
+                b['programs'] += 1
+                b['rewritten'] += 1 if h.get('rewritten') else 0
+                b['safe'] += 1 if safe else 0
+                b['rewritten_and_safe'] += 1 if safe and h.get('rewritten') else 0
             if r['opts'] == 's':
-                sh['programs_s_only'] = sh.get('programs_s_only', 0) + 1
-                sh['rewritten_s_only'] = sh.get('rewritten_s_only', 0) + (1 if h.get('rewritten') else 0)
                 sh['switchSafe'] += 1 if safe else 0
-                sh['rewritten_and_switchSafe'] = sh.get('rewritten_and_switchSafe', 0) + (1 if safe and h.get('rewritten') else 0)
-            res.setdefault('switch_hyps', {})[r['id']] = {'swOK': h.get('swOK'), 'rewritten': h.get('rewritten'), 'switchSafe': safe}
+            # the theorem's hypotheses on the ORIGINAL grammar (default parser side; the -noast fragment for sn): where they fail
+            # the program is outside the theorem with or without -switch
+            base_ok = all(h.get(k) for k in ('wfb', 'grammarOK', 'linkedOK', 'plain')) and (h.get('grammarOKN') is not False)
+            if key and key in h:
+                b['base_ok'] = b.get('base_ok', 0) + (1 if base_ok else 0)
+                b['base_ok_and_safe'] = b.get('base_ok_and_safe', 0) + (1 if base_ok and safe else 0)
+            res.setdefault('switch_hyps', {})[r['id']] = {'swOK': h.get('swOK'), 'rewritten': h.get('rewritten'), 'switchSafe': safe, 'theorem_hyp': key, 'base_ok': base_ok}
+            if not h.get('swOK') or safe is False:
+                res.setdefault('texts', {})[r['id']] = meta[r['id']][4]
     stats['switch_hypotheses'] = sh
     for r in mreqs:
         x = realby[r['id']]
